@@ -5,6 +5,10 @@ cd "$(dirname "$0")/.."
 for d in benign/*/; do
   name=$(basename "$d")
   out=$(tools/runmut.sh "$d/patch.diff" all 2>&1 | grep -v "^RD3\|^OU1 .*\(RunQuickstart\|printVersion\|UsageText\|init#9\)\|^DT10 .*field Graph.Tombstones\|^rules=")
+  # a patch written to preserve ONE property may rightly trip a rule of another: listed, with the reason, in expected.txt
+  if [ -f "$d/expected.txt" ]; then
+    for r in $(awk '{print $1}' "$d/expected.txt"); do out=$(echo "$out" | grep -v "^$r "); done
+  fi
   n=$(echo "$out" | grep -c "violated\|undecided")
   echo "$name alarms=$n $(echo "$out" | awk '$2=="violated"||$2=="undecided"{print $1}' | sort | uniq -c | awk '{printf "%s×%s ", $2, $1}')"
 done
